@@ -224,7 +224,3 @@ func fixtureR16_1(fw *World) []string {
 	}
 	return fails
 }
-
-func ruleR16_2(w *World, r *Report) {}
-
-func fixtureR16_2(fw *World) []string { return nil }
